@@ -56,6 +56,12 @@ var rejections = []rejection{
 	{"shapes.txt", "bad-shape_pt_lon", map[string]string{"shape_pt_lon": "1,5"}},
 	{"shapes.txt", "bad-shape_pt_sequence", map[string]string{"shape_pt_sequence": "first"}},
 	{"shapes.txt", "blank-shape_pt_sequence", map[string]string{"shape_pt_sequence": ""}},
+	{"shapes.txt", "bad-shape_pt_lat-of-a-new-shape", map[string]string{"shape_id": "ZZNEWSHAPE", "shape_pt_lat": "north"}},
+	{"shapes.txt", "bad-shape_pt_sequence-of-a-new-shape", map[string]string{"shape_id": "ZZNEWSHAPE", "shape_pt_sequence": "1.5"}},
+	{"shapes.txt", "blank-shape_pt_lon-of-a-new-shape", map[string]string{"shape_id": "ZZNEWSHAPE", "shape_pt_lon": ""}},
+	{"calendar_dates.txt", "bad-date-of-a-new-service", map[string]string{"service_id": "ZZNEWSERVICE", "date": "20241345"}},
+	{"calendar_dates.txt", "blank-exception_type-of-a-new-service", map[string]string{"service_id": "ZZNEWSERVICE", "exception_type": ""}},
+	{"calendar.txt", "bad-end_date-of-a-new-service", map[string]string{"service_id": "ZZNEWSERVICE", "end_date": "2024"}},
 	{"trips.txt", "blank-route_id", map[string]string{"route_id": ""}},
 	{"trips.txt", "blank-service_id", map[string]string{"service_id": ""}},
 	{"trips.txt", "blank-trip_id", map[string]string{"trip_id": ""}},
